@@ -275,7 +275,7 @@ void
 #endif
 		pxgstrf_mark_busy_descends(pnum, jcol, etree, pxgstrf_shared, 
 					   &bcol, lbusy);
-		SLU_VERIF_EV(SLU_VEV_LBUSY, pnum, jcol, bcol, 0, pxgstrf_shared);
+		SLU_VERIF_EV(SLU_VEV_LBUSY, pnum, jcol, bcol, 0, lbusy);
 		
 		/* Symbolic factor on a panel of columns */
 		psgstrf_panel_dfs
